@@ -47,6 +47,16 @@ add("C06", "exploration",
     "trusted: closed universe (targets, created contracts, beneficiaries are added as they appear), released escrow read from the escrow entries before the block, stub ConsensusHelper",
     "deterministic simulation: value-movement histories with gas-starvation faults + conservation monitor")
 
+add("C13", "exploration",
+    "n in [3,10] member objects run the node's own DKG code with the n*n share pieces delivered over a simulated transport in seeded order with duplicates; every member signs 1-3 messages and 2-5 collectors (real GroupSignGenerator) receive the shares in seeded arrival orders with drops, duplicates and late arrivals, under a seeded internal k-subset choice (randomness hook) and seeded share-map iteration order (instrumented build); for n<=7 every k-subset is additionally recovered directly. Oracle: same group public key on every member = sum of dealers' public keys; shares verify under public shares; threshold = ceil(51% n); every recovery equals H(m)^s for the independently summed secret and verifies under the group key; nothing below the threshold. Sampling (plus per-plan exhaustive subsets), not proof.",
+    "trusted: the repository's Sign/VerifySig (soundness is C14, not applicable to this technique) for the reference signature on the independently summed secret; seeded randomness hook in base.NewRand; map-order instrumentation",
+    "deterministic simulation: DKG + share collection under reorder/duplicate/drop, seeded subset choice and map order vs algebraic reference")
+
+add("C15", "exploration",
+    "one verifier runs the real SignParty (round1 -> round2, stored-message replay) on a booted node for a group keyed by the node's DKG code and a really cast block; the other members are scripted, honest or Byzantine (valid signature over another hash filed under this block, another member's share, duplicates, non-member id, garbage points, bad beacon / bad block share), their protobuf messages decoded by the real decoder and delivered in seeded orders, also before the proposal is accepted, as scheduler tasks. After every delivery the two share sets may only hold each member's valid share for this block hash / previous beacon; once k honest members are in and at most n-k members are Byzantine the party must have finalised within that delivery with a valid block signature and beacon (bounded liveness). Sampling, not proof.",
+    "trusted: in-package driver positions the party after round0's acceptance checks (not part of C15); recording fake consensus network; stub ConsensusHelper on the chain that receives the finalised block",
+    "deterministic simulation: real signing round with Byzantine members and seeded arrival orders; share-set invariant + bounded-liveness oracle")
+
 add("C17", "exploration",
     "seeded operation histories on the real TxPool (add fresh/duplicate/executed/evicted, pack against plan-set state nonces, mark-executed with evictions, unmark (reorg), lookups, simulated cycle-ticker firings, node restarts) checked after every operation against a sequential reference pool and the statement's pack rules (no duplicates, <=200, no executed hash, per-sender ascending nonces, none ahead of the expected nonce, eligible pending transactions offered); concurrent part: 2-4 client tasks issue the same operations under the simulator's seeded scheduler (yield points inserted at function entries, lock sites and store writes of the pool code; chain lock discipline as in the node), with at-most-once and structural invariants at quiescence and a per-hash linearizability check of the recorded history (porcupine). Sampling, not proof.",
     "trusted: reference pool model, the inserted yield points are the interleaving granularity (races inside a function body between two yield points are not schedulable), goleveldb/gmap/lru run real but are not under test",
